@@ -33,6 +33,25 @@ CLAIMS: dict[str, tuple[str, str, str, str]] = {
         "Axioms: pieces of split('-') parse to ints >= 0 or raise ValueError; length >= 0. "
         'Trusted: CPython ast; the zone closure. Not decided: equality of the body bytes.',
         'DESIGN.md section 4, C13'),
+    'C15': (
+        'route-table enumeration + decorator-stack normalisation + call-graph effect analysis + must-fact path rules',
+        'For every (route, HTTP verb) pair read from routes.py (146 pairs, handlers resolved along '
+        'the MRO, HEAD falling back to get): if a persistent-state store (model attribute store, '
+        'session.add/delete, x.add()/x.delete(), file create/unlink) with a commit is reachable in '
+        'the resolved call graph, the normalised guard (class `decorators` + per-method decorators) '
+        'must demand the documented role (media; admin or the verified in-body self guard for '
+        'User). The role decorators themselves are path-checked (every path to func() passed the '
+        'authenticated/admin/permission refusals), no model store may precede a CSRF check inside a '
+        'verb method (the check commits the session), and CsrfProtection.check must refuse re-use, '
+        'record the token, sign cookie key + service + salt exactly as the issuer does and raise on '
+        'mismatch. A handler added or changed without the right decorator is a missing element of '
+        'the enumeration, for every request at once.',
+        'May-reach over resolved call edges (unresolved dynamic calls are not followed); role data '
+        'and browser cookie behaviour are run-time and not decided; jwt_required() alone is treated '
+        'as anonymous because the guest identity is handed to every visitor. Policy table and the '
+        'two accepted in-body guards (EditUser.post, LoginPage.post) are confirmed by reading and '
+        're-verified structurally on every run.',
+        'DESIGN.md section 4, C15'),
     'C20': (
         'linear normal forms + must-fact data-flow + zone-domain proof over BufferedReader',
         'Window discipline of BufferedReader for every operation sequence: each absolute position '
